@@ -505,3 +505,59 @@ def throughout_the_year_shift_on_a_series(K, cls, rows, neutral):
         want = K.cell_ite(first_of_year, lambda: K.real_cell(K.frac(neutral)), lambda: prev)
         K.instantiate(t)
         K.ensure(f"period {i} after shift('tty')", K.cell_eq(V(K, ns, nd, t, 0), want))
+
+
+# ------------------------------------------------------------------------------ cum_*: which loop runs, with which step, from which initial value
+@contract("C13", targets=[P + "Inlay.temporal_cumulation", P + "Inlay.cum_diff", P + "Inlay.cum_diff_log", P + "Inlay.cum_pct", P + "Inlay.cum_roc",
+                          P + "_catch_invalid_shift", "irispie.dates:Span.resolve", "irispie.dates:Span.direction"],
+          instances=[(n, d, i) for n in ("diff", "diff_log", "pct", "roc") for d in ("forward", "backward", "default") for i in (False, True)],
+          cross=0, opts={"max_paths": 2000})
+def cumulation_dispatch(K, name, direction, with_initial):
+    """cum_<f>(shift, initial, span): an ascending span (or none: the whole series) runs the forward loop with the forward
+    step of f, a descending span the backward loop with the backward step - the steps the contract above proves inverse to
+    f -, over exactly that span, with the given shift and initial condition (documented default when none is given: 0 for
+    diff and diff_log, 1 for pct and roc)."""
+    cls = D.QuarterlyPeriod
+    x, xs, xd = mk_series(K, "x", cls, 1)
+    rows = K.shape(xd)[0]
+    a = K.int("a", 8000, 8060)
+    b = K.int("b", 8000, 8060)
+    k = K.int("shift", -8, -1)
+    init = K.real("initial") if with_initial else None
+    if direction == "forward":
+        K.assume(a <= b)
+        span = K.call(D.Span, K.obj(cls, serial=a), K.obj(cls, serial=b))
+    elif direction == "backward":
+        K.assume(a >= b)
+        span = K.call(D.Span, K.obj(cls, serial=a), K.obj(cls, serial=b), -1)
+    else:
+        span = None
+    kw = {}
+    if span is not None:
+        kw["span"] = span
+    if with_initial:
+        kw["initial"] = init
+    calls_f, calls_b = [], []
+
+    def run():
+        inner_b = K.capture(T.Inlay, "_cumulate_backward", lambda: K.method(x, "cum_" + name, k, **kw))
+        calls_b.extend(inner_b)
+    calls_f.extend(K.capture(T.Inlay, "_cumulate_forward", run))
+    want_loop = "backward" if direction == "backward" else "forward"
+    K.ensure("exactly one loop runs, in the direction of the span", (len(calls_f), len(calls_b)) == ((1, 0) if want_loop == "forward" else (0, 1)))
+    calls = calls_f if want_loop == "forward" else calls_b
+    if len(calls) != 1:
+        return
+    (self_, shift_, cum_func, initial_, span_), _ = calls[0]
+    fac = T._CUMULATIVE_FACTORY[name]
+    K.ensure("the step of this function and direction", cum_func is fac[want_loop])
+    K.ensure("the shift is passed on", shift_ == k)
+    if with_initial:
+        K.ensure("the initial condition given", initial_ is init or K.real_eq(initial_, init))
+    else:
+        K.ensure("the documented default initial value", initial_ == {"diff": 0, "diff_log": 0, "pct": 1, "roc": 1}[name])
+    s0, s1 = K.attr(K.getattr(span_, "start"), "serial"), K.attr(K.getattr(span_, "end"), "serial")
+    if direction == "default":
+        K.ensure("no span given: the whole series, forward", K.And(s0 == xs, s1 == xs + rows - 1, K.getattr(span_, "step") == 1))
+    else:
+        K.ensure("the span given", K.And(s0 == a, s1 == b, K.getattr(span_, "step") == (1 if direction == "forward" else -1)))
